@@ -448,6 +448,52 @@ theorem C27_member_line_fields (m : Member) (haddr : TAB ∉ m.addr ∧ NL ∉ m
 (the documentation promises escaping, not a decodable encoding) -/
 theorem C27_eventClean_not_injective : eventClean [9] = eventClean [92, 116] := by decide
 
+/-! ## reloading the handler list -/
+
+/-- what the next event will be dispatched with -/
+def inEffect (h : HandlerState) : List (Filter × Bytes) := h.pending.getD h.scripts
+
+theorem inEffect_applyOp (h : HandlerState) (o : HOp) :
+    inEffect (applyOp h o) = match o with
+      | .update l => l
+      | .event .. => inEffect h := by
+  cases o with
+  | update l => rfl
+  | event env e =>
+    simp only [applyOp, handleEvent, swapIn, inEffect]
+    cases hp : h.pending <;> simp [hp]
+
+theorem inEffect_applyOps (ops : List HOp) (h : HandlerState) :
+    inEffect (applyOps h ops) = lastConfig (inEffect h) ops := by
+  induction ops generalizing h with
+  | nil => rfl
+  | cons o rest ih =>
+    simp only [applyOps]
+    rw [ih, inEffect_applyOp]
+    cases o <;> rfl
+
+/-- **Only the handlers configured last run**: after any history of reloads and events, the
+scripts started for the next event are exactly the matching entries of the configuration given
+LAST (the initial one if there was no reload) — also when that configuration is empty; a handler
+that is no longer configured never runs. -/
+theorem C27_reload_exact (init : List (Filter × Bytes)) (ops : List HOp) (env : List (Bytes × Bytes)) (e : Event) :
+    (handleEvent (applyOps ⟨init, none⟩ ops) env e).2 = startedOf (lastConfig init ops) env e := by
+  have h := inEffect_applyOps ops ⟨init, none⟩
+  simp only [inEffect, Option.getD_none] at h
+  simp only [handleEvent, swapIn]
+  cases hp : (applyOps ⟨init, none⟩ ops).pending with
+  | none => simp only [hp, Option.getD_none] at h; rw [h]
+  | some l => simp only [hp, Option.getD_some] at h; rw [h]
+
+/-- a reload to NO handlers silences every handler (seeded C27-d kept the old ones running) -/
+theorem C27_reload_to_empty (init : List (Filter × Bytes)) (env : List (Bytes × Bytes)) (e : Event) :
+    (handleEvent (applyOps ⟨init, none⟩ [.update []]) env e).2 = [] := by
+  rw [C27_reload_exact]
+  simp [lastConfig, startedOf, runsOf]
+
+example : (handleEvent (applyOps ⟨[(⟨starB, []⟩, [115])], none⟩ [.update [], .update [(⟨starB, []⟩, [116])]]) [] (.user [97] 1 [])).2 = [[116]] := by
+  decide
+
 /-! ## member addresses: the hypothesis of `C27_member_line` discharged for IPv4 and nil -/
 
 theorem digit_clean (n : Nat) : digit n ≠ TAB ∧ digit n ≠ NL := by
@@ -582,6 +628,19 @@ theorem C27_src_matching :
       "if query.Name != s.Name {", "return false", "}", "}", "return true"] ∧
     hasBlock ["for _, script := range h.Scripts {", "if !script.Invoke(e) {", "continue", "}",
       "err := invokeEventScript(h.Logger, script.Script, self, e)"] EventScriptSrc.handleEvent = true := by decide
+
+set_option maxRecDepth 8000 in
+/-- reload (`updateScripts`, `swapIn`): UpdateScripts stores the list, HandleEvent swaps it in
+when it is non-nil — NOT "non-empty" (seeded C27-d) — before dispatching, and the agent builds the
+list as a non-nil slice even without handlers -/
+theorem C27_src_reload :
+    EventScriptSrc.updateScripts = ["h.scriptLock.Lock()", "defer h.scriptLock.Unlock()", "h.newScripts = scripts"] ∧
+    hasBlock ["h.scriptLock.Lock()", "if h.newScripts != nil {", "h.Scripts = h.newScripts", "h.newScripts = nil", "}",
+      "h.scriptLock.Unlock()"] EventScriptSrc.handleEvent = true ∧
+    before "h.scriptLock.Unlock()" "for _, script := range h.Scripts {" EventScriptSrc.handleEvent = true ∧
+    EventScriptSrc.configEventScripts = ["result := make([]EventScript, 0, len(c.EventHandlers))",
+      "for _, v := range c.EventHandlers {", "part := ParseEventScript(v)", "result = append(result, part...)", "}",
+      "return result"] := by decide
 
 end Src
 
